@@ -402,9 +402,6 @@ func (e *Executor) OnTargetComplete(ctx context.Context, target *model.Target, u
 	if target.SkipsCache() || !e.enableCache {
 		logger.Debugf("%s: skipping cache write", target.Label)
 		targetResult, err = e.registry.GetNoCacheOutputHash(ctx, target)
-		// TODO should we even store this in the cache given that the target
-		// is no-cache? Probably fine from a user perspective
-		// since it's the target cache and not the output cache
 	} else if len(target.AllOutputs()) == 0 {
 		logger.Debugf("%s: no outputs to write", target.Label)
 		// NOTE: This is a special and intentional design
@@ -433,6 +430,13 @@ func (e *Executor) OnTargetComplete(ctx context.Context, target *model.Target, u
 	target.OutputsLoaded = true
 	target.OutputHash = targetResult.OutputHash
 
+	if target.SkipsCache() || !e.enableCache {
+		// Do not store a target result either: it carries no outputs, and writing it would
+		// overwrite the result (with outputs) that a cached build stored under the same
+		// change hash, which later builds would then fail to load.
+		return nil
+	}
+
 	cacheStart := time.Now()
 	defer func() {
 		target.CacheTime += time.Since(cacheStart)
@@ -456,6 +460,10 @@ func (e *Executor) LoadDependencyOutputs(
 	)
 	for _, dep := range e.graph.GetTargetDependencies(target) {
 		localDep := dep
+		if localDep.OutputsLoaded {
+			// Executed or loaded earlier in this build: its outputs are in the workspace
+			continue
+		}
 		// Function to re-run a dependency in case we
 		rerunDependency := func() error {
 			binTools, binToolErr := e.getBinToolPaths(localDep)
